@@ -1,0 +1,34 @@
+//go:build verif
+
+// Copyright 2023 StreamNative, Inc.
+//
+// Licensed under the Apache License, Version 2.0 (the "License");
+// you may not use this file except in compliance with the License.
+// You may obtain a copy of the License at
+//
+//     http://www.apache.org/licenses/LICENSE-2.0
+//
+// Unless required by applicable law or agreed to in writing, software
+// distributed under the License is distributed on an "AS IS" BASIS,
+// WITHOUT WARRANTIES OR CONDITIONS OF ANY KIND, either express or implied.
+// See the License for the specific language governing permissions and
+// limitations under the License.
+
+package process
+
+import "runtime/debug"
+
+// VerifPanicHandler, when set, receives a panic raised on a goroutine started through
+// DoWithLabels instead of letting it kill the process. The verification harness runs several
+// storage nodes in one test process and treats such a panic as the crash of a node.
+var VerifPanicHandler func(labels map[string]string, value any, stack []byte)
+
+func verifRecover(labels map[string]string) {
+	h := VerifPanicHandler
+	if h == nil {
+		return
+	}
+	if r := recover(); r != nil {
+		h(labels, r, debug.Stack())
+	}
+}
